@@ -88,15 +88,33 @@ def register(base, key, props, cfgs, modes=('file',), **attrs):
             extra = dict(attrs)
             extra['cfg'] = cfg
             extra['preload'] = (mode == 'preload')
-            extra['local'] = (mode != 'blob')
+            extra['local'] = (mode not in ('blob', 'blob+fault'))
+            extra['fault_mode'] = mode.endswith('fault')
             extra['variant'] = cfg_name(cfg) + ('' if mode == 'file' else '+' + mode) + (('+' + attrs['tag']) if 'tag' in attrs else '')
             cls = type(f'{base.__name__}_{len(REG)}', (base,), extra)
             REG.append(cls)
             fuc(key, props=props, modular=getattr(base, 'modular_use', False) and cfg == use[0] and mode == modes[0])(cls)
 
 
+def faulty(c):
+    return c.ghost.get('io_mode') == 'faulty'
+
+
 class LoaderContract(Contract):
     exact_result = True          # result() is the exact functional postcondition; post() is checked when verifying
+    fault_mode = False           # C17 variants: the backend may raise or return short on any range read
+
+    def may_raise_at(self, c, a):
+        # a range read on behalf of this call may fail: then the call raises (what C17 demands; verified per function)
+        return ('OSError',) if faulty(c) else ()
+
+    def on_env_raise(self, c, a, cls):
+        c.ghost['fault'] = True
+
+    def check_no_fault(self, c):
+        """C17: on normal return no range read failed or came back short"""
+        if self.fault_mode:
+            c.ensure(mk_bool(not c.ghost.get('fault')), 'fault.normal_return_implies_every_read_succeeded', kind='ghost')
     layout = 'default'
     two_d = False
     preload = False
@@ -105,6 +123,8 @@ class LoaderContract(Contract):
     may_raise = ()
 
     def base_inputs(self, c):
+        if self.fault_mode:
+            c.ghost['io_mode'] = 'faulty'
         g = O.mk_geo(c, layout=self.layout, two_d=self.two_d, cfg=self.cfg)
         ld = O.mk_loader(c, c.ex.prog, g, preload=self.preload, local=self.local)
         return g, ld
@@ -115,6 +135,7 @@ class LoaderContract(Contract):
 
     def ghost_common(self, c, g, label='reads'):
         """reads lie in the data section and no byte is fetched twice; with preload nothing is read at all"""
+        self.check_no_fault(c)
         if self.preload:
             GH.require_read_count(c, 0, 'preload_noreads')
             return
@@ -183,6 +204,7 @@ class GetCompressedBytes(LoaderContract):
         g = geo_of(a)
         if c.mode != 'verify':
             return
+        self.check_no_fault(c)
         c.ensure(mk_bool(isinstance(result, BM.BytesBase)), 'is_bytes')
         c.ensure(eq(result.length, a['length_bytes']), 'length')
         q = c.sym_int('q', lo=0, name='byte_pos')
@@ -199,7 +221,7 @@ class GetCompressedBytes(LoaderContract):
 
 
 register(GetCompressedBytes, 'loader.py::SgzLoader._get_compressed_bytes', ['C02', 'C07', 'C17'],
-         [CFG_DEFAULT[3], CFG_ZSLICE[0]], modes=('file', 'preload', 'blob'))
+         [CFG_DEFAULT[3], CFG_ZSLICE[0]], modes=('file', 'preload', 'blob', 'fault', 'blob+fault'))
 
 
 # ---------------------------------------------------------------------------------------------
@@ -754,3 +776,21 @@ class ChunkRange2d(LoaderContract):
 
 
 register(ChunkRange2d, 'loader.py::SgzLoader2d.read_unshuffle_and_decompress_chunk_range_2d', ['C02', 'C07', 'C09'], ALL2, modes=('file', 'preload'))
+
+
+# ---------------------------------------------------------------------------------------------
+# C17 / C18: the same contracts with a backend that may fail (raise, short or empty read) on any range read.
+# Obligations added: on normal return every range read made on behalf of the call succeeded
+# (ghost.fault.*), and no exception raised in a pool task was dropped (ghost.pool.*).
+
+FAULT_PROPS = ['C17', 'C18']
+register(IlSet, 'loader.py::SgzLoader3d.read_and_decompress_il_set', FAULT_PROPS, [CFG_DEFAULT[3]], modes=('fault',))
+register(XlSet, 'loader.py::SgzLoader3d.read_and_decompress_xl_set', FAULT_PROPS, [CFG_DEFAULT[3]], modes=('fault', 'blob+fault'))
+register(ZsliceSet, 'loader.py::SgzLoader3d.read_and_decompress_zslice_set', FAULT_PROPS, [CFG_DEFAULT[3]], modes=('fault', 'blob+fault'))
+register(ReadChunkRange, RCR, FAULT_PROPS, [CFG_DEFAULT[3]], modes=('fault',))
+register(ChunkRange, 'loader.py::SgzLoader3d.read_and_decompress_chunk_range', FAULT_PROPS, [CFG_DEFAULT[3]], modes=('fault',), tag='mt')
+register(ChunkRangeST, 'loader.py::SgzLoader3d.read_and_decompress_chunk_range', FAULT_PROPS, [CFG_DEFAULT[3]], modes=('fault',), tag='st')
+register(ZsliceSetAdv, 'loader.py::SgzLoader3d.read_and_decompress_zslice_set_adv', FAULT_PROPS, [CFG_ZSLICE[0]], modes=('fault', 'blob+fault'))
+register(Unshuffle, 'loader.py::SgzLoader3d.read_unshuffle_and_decompress_chunk_range', FAULT_PROPS, [CFG_GENERAL[5]], modes=('fault',))
+register(TraceRange2d, 'loader.py::SgzLoader2d.read_and_decompress_trace_range', FAULT_PROPS, [CFG_2D_DEFAULT[0]], modes=('fault',))
+register(ChunkRange2d, 'loader.py::SgzLoader2d.read_unshuffle_and_decompress_chunk_range_2d', FAULT_PROPS, [CFG_2D_GENERAL[0]], modes=('fault',))
